@@ -13,6 +13,11 @@ def rule_g1(ctx, F):
     fn = ctx.need_fn(F, "iterator_compare", "G1")
     if not fn:
         return
+    # the locals the tables call old_tree/new_tree/… are whatever iterator_get_visible_state fills in
+    for it, names in (("old_iter", ("old_tree", "old_alias_symbol", "old_start")), ("new_iter", ("new_tree", "new_alias_symbol", "new_start"))):
+        for pt, c in fn.calls():
+            if c.get("fn") == "iterator_get_visible_state" and arg_var(c, 0) == it:
+                bind_names(fn, {names[0]: arg_var(c, 1), names[1]: arg_var(c, 2), names[2]: arg_var(c, 3)})
     acc = [pt for pt, e in fn.points() if e.get("k") == "ret" and strip(e["e"]).get("name") == "IteratorMatches"]
     ctx.floor("`return IteratorMatches` sites", len(acc), 2)
     both_null = [("old_tree.ptr", False), ("new_tree.ptr", False)]
@@ -256,6 +261,8 @@ def rule_p2(ctx, F):
             ctx.bad("P2", "iterator_descend:tracks-external-token", "iterator_descend: %s" % v.msg, {"path": s.render_path(v.path)[-6:] if v.path else []})
     fn = F.fn("iterator_advance")
     if fn and "iterator_advance" in writers:
+        ent = locals_of_type(fn, "TreeCursorEntry")
+        bind_names(fn, {"entry": ent[0] if ent else None})
         trig = [pt for pt, e in fn.points() if e.get("k") == "decl" and e["name"] == fn.cur("entry")]
         ends = [pt for pt, c in fn.calls() if c.get("fn") == "_array__grow"] + trig
         s = Search(fn, FoldMonitor(trig, writers["iterator_advance"], ends, "ts_subtree_last_external_token(*entry.subtree).ptr", exit_ok=True))
